@@ -22,9 +22,11 @@ CLAIMED = {
         text=("Theorems (Coq, unbounded): the parser model accepts exactly the sentences of a stratified precedence "
               "grammar and returns the tree the grammar dictates (C01_parse_sound, C01_parse_iff: sound + complete), "
               "the grammar is unambiguous, the fuel is never exhausted, parentheses are transparent to the resolver. "
-              "Scanning (whitespace) is covered by the correspondence, not by a theorem." + COMMON),
+              "Scanner (C01_scanner.v): the token loop accepts exactly the separated renderings of well-formed "
+              "lexemes, whitespace between tokens never matters, intercept insertion, rejection of empty text / two "
+              "tildes / unterminated strings and names / characters outside the alphabet, fuel never exhausted." + COMMON),
         design_ref="DESIGN.md section 5 C01, section 10",
-        technique="Coq proof: parser sound+complete w.r.t. precedence grammar; translator tie; differential correspondence"),
+        technique="Coq proof: scanner characterised by renderings, parser sound+complete w.r.t. precedence grammar; translator tie; differential correspondence"),
     "C02": dict(
         text=("Theorem (Coq): on the documented fragment the term-algebra model (every operator overload of terms.py) "
               "accepts the formula and its result equals the Wilkinson set semantics (Spec/Wilkinson.v); refuted "
@@ -34,11 +36,15 @@ CLAIMED = {
     "C03": dict(
         text=("Theorems (Coq, unbounded): the redundancy analysis returns codings whose subset-lattice intervals "
               "partition the union of the down-closures of the terms, for every group of terms in every order; the "
-              "Python assertions cannot fail; fuel suffices. Per-factor algebra in C13. NOT proved: the Kronecker "
-              "bridge from the partition to rank/span of the matrix, and the caller's one-coding-per-term restriction "
-              "(listed findings KF-C03-2/3) -- covered by the exact-rank oracle on complete-factorial data." + COMMON),
+              "Python assertions cannot fail; fuel suffices. Tensor bridge (C03_rank.v, MathComp, any field, any number "
+              "of factors and levels): when the codings' intervals partition a down-closed family of factor subsets, "
+              "the coded matrix on complete-factorial cells has independent columns and exactly the column space of "
+              "the complete-indicator coding (C03_tensor_bridge, C03_pick_contrasts_full_rank), and overlapping "
+              "intervals are rank deficient. Numeric covariates in general position are not inside the theorem (the "
+              "exact-rank oracle decides them); the caller's one-coding-per-term restriction is the listed finding "
+              "KF-C03-2/3, its class decided by the extracted model." + COMMON),
         design_ref="DESIGN.md section 5 C03, section 10",
-        technique="Coq proof: interval-partition theorem for the contrast analysis (partial w.r.t. the tensor bridge); rank oracle; correspondence"),
+        technique="Coq proof: interval-partition theorem for the contrast analysis + MathComp tensor bridge to rank/span; rank oracle; correspondence"),
     "C04": dict(
         text=("Theorems (Coq, unbounded arity / level counts / rows): labelled-product theorem (labels and entries of an "
               "interaction stay aligned, left factor slowest, counts equal), treatment-coded component = indicator "
@@ -55,8 +61,10 @@ CLAIMED = {
         technique="Coq proof: one-hot Kronecker block structure; rank oracle on crossed designs; correspondence"),
     "C06": dict(
         text=("Theorems (Coq): evaluation of new data is row-wise with frozen levels, contrasts and recorded transform "
-              "parameters, hence selecting rows commutes with evaluation (see property file for the covered call "
-              "shapes); refuted witnesses for the two listed findings (level re-validation, stateless binary)." + COMMON),
+              "parameters, hence the new common matrix AND the new group-specific matrix on any list of training rows "
+              "are those rows of the training matrices, in every unseen-level mode, including poly and bs (see "
+              "property file for the covered call shapes); prediction records nothing; refuted witnesses for the two "
+              "listed findings (level re-validation, stateless binary)." + COMMON),
         design_ref="DESIGN.md section 5 C06, section 10",
         technique="Coq proof: row-locality / frozen state of the prediction pass; correspondence on row multisets of the training frame"),
     "C07": dict(
@@ -69,8 +77,10 @@ CLAIMED = {
         technique="Coq proof: refinement of an immutable-design specification over all operation histories; history correspondence"),
     "C08": dict(
         text=("Theorems (Coq): the design depends only on the columns the formula uses (column order, unused columns "
-              "and the index are not inputs of the model) and row selection/permutation commutes with term "
-              "construction (see property file for the exact statements proved). The index and pandas-side structure "
+              "and the index are not inputs of the model) and a row permutation permutes the rows of the response, "
+              "common and group-specific matrices and changes nothing else -- labels, levels, groups, fitted "
+              "center/scale/bs/poly parameters (C08_perm_rows, C08_perm_rows_groups, C08_permuted_design_spec). The "
+              "index and pandas-side structure "
               "are covered by the correspondence (the implementation is fed permuted / re-indexed / re-ordered frames)." + COMMON),
         design_ref="DESIGN.md section 5 C08, section 10",
         technique="Coq proof: frame-agreement and row-equivariance lemmas; differential correspondence under frame transformations"),
@@ -106,8 +116,9 @@ CLAIMED = {
               "columns are level indicators with zero reference row; [1|treatment] has full rank (explicit inverse); "
               "sum columns add to zero with the omitted level -1; [1|sum] has full rank iff the number of levels is "
               "invertible; full codings span all indicators; all codings of one factor have the same column space; "
-              "entry bridge to the executable model. Lifting to whole design matrices rests on C03's missing tensor "
-              "bridge and is decided by the exact-rank oracle." + COMMON),
+              "entry bridge to the executable model. Lifted to whole categorical designs by the tensor bridge: the "
+              "column space of a coded design on complete-factorial cells does not depend on which valid coding each "
+              "factor uses (C13_coding_never_changes_the_column_space; Treatment and Sum are valid codings)." + COMMON),
         design_ref="DESIGN.md section 5 C13, section 10",
         technique="Coq/MathComp proof: explicit inverses and column-space equalities of contrast matrices; exhaustive correspondence n = 1..12"),
     "C14": dict(
